@@ -128,23 +128,29 @@ class EncoderSelector:
                         continue
 
                     # Get metrics
-                    n_design_points = assignment_manager.encoder.get_n_design_points()
-                    imputation_ratio = self._get_imp_ratio(
-                        n_design_points, n_mat, n_exist, assignment_manager=assignment_manager)
-                    information_index = assignment_manager.encoder.get_information_index()
+                    try:
+                        n_design_points = assignment_manager.encoder.get_n_design_points()
+                        imputation_ratio = self._get_imp_ratio(
+                            n_design_points, n_mat, n_exist, assignment_manager=assignment_manager)
+                        information_index = assignment_manager.encoder.get_information_index()
 
-                    distance_correlation = np.nan
-                    if imputation_ratio <= dist_corr_limit:
-                        if limit_dist_corr_time:
-                            limit_dist_corr_time = self.limit_dist_corr_time
-                        if limit_dist_corr_time:
-                            try:
-                                distance_correlation = run_timeout(
-                                    self.encoding_timeout, self._get_dist_corr, assignment_manager)
-                            except (TimeoutError, MemoryError):
-                                pass
-                        else:
-                            distance_correlation = self._get_dist_corr(assignment_manager)
+                        distance_correlation = np.nan
+                        if imputation_ratio <= dist_corr_limit:
+                            if limit_dist_corr_time:
+                                limit_dist_corr_time = self.limit_dist_corr_time
+                            if limit_dist_corr_time:
+                                try:
+                                    distance_correlation = run_timeout(
+                                        self.encoding_timeout, self._get_dist_corr, assignment_manager)
+                                except (TimeoutError, MemoryError):
+                                    pass
+                            else:
+                                distance_correlation = self._get_dist_corr(assignment_manager)
+
+                    except (ValueError, IndexError, RuntimeError) as e:
+                        # A candidate that cannot even be scored for these settings is not a usable encoder
+                        log.debug(f'Encoder scoring failed: {e!r}')
+                        continue
 
                     assignment_mgr.append(assignment_manager)
                     scoring['n_des_pts'].append(n_design_points)
